@@ -8,7 +8,14 @@
     const_eq!/const_cmp! are, per type, the named function (Model/Cmp.v, const_*_m), so the
     theorems about the named functions cover them.
 
-    NOT YET PROVED: nothing planned in DESIGN section 4 (C16) is missing. *)
+    NOT YET PROVED: nothing planned in DESIGN section 4 (C16) is missing.
+
+    OBSERVED, outside the quantifier (ranges are quantified as built from boundary values):
+    a RangeInclusive that was iterated to exhaustion carries a private [exhausted = true] flag
+    which std's derived [==] compares and konst's eq_rangeinc_* / const_eq! cannot read:
+    [let mut e = 1u8..=1; e.next();] then [e == (1u8..=1)] is false in std while
+    [eq_rangeinc_u8(&e, &(1..=1))], [const_eq!(e, 1..=1)] and
+    [const_eq_for!(range_inclusive; e, 1..=1)] are true. *)
 From KV Require Import Base.Prelude Model.Cmp Spec.Cmp Proofs.CmpProofs.
 
 
@@ -169,6 +176,14 @@ Theorem C16_length_first_refuted : cmp_slice_length_first [2] [1; 1] = Some Lt /
   lex Z.compare [2] [1; 1] = Gt /\ cmp_slice_m [2] [1; 1] = Some Gt.
 Proof. exact length_first_refuted. Qed.
 
+(** user types ([impl_cmp!]): a [try_equal!] chain is the lexicographic product of the field
+    comparisons, and the product of lawful field orders is lawful *)
+Theorem C16_try_equal_lexprod : forall a k, try_equal_m (Some a) (Some k) = Some (lexprod a k).
+Proof. exact try_equal_lexprod. Qed.
+Theorem C16_pair_lawful : forall (A B : Type) (cA : A -> A -> comparison) (cB : B -> B -> comparison),
+  lawful cA -> lawful cB -> lawful (pair_cmp cA cB).
+Proof. exact @lawful_pair. Qed.
+
 Print Assumptions C16_cmp_slice_eq_lex.
 Print Assumptions C16_cmp_str_eq_lex.
 Print Assumptions C16_eq_slice_iff_eq.
@@ -224,3 +239,5 @@ Print Assumptions C16_cmp_eq_iff_eq_slice_str.
 Print Assumptions C16_assertc_eq_panics_iff_ne.
 Print Assumptions C16_assertc_prim_panics_iff.
 Print Assumptions C16_length_first_refuted.
+Print Assumptions C16_try_equal_lexprod.
+Print Assumptions C16_pair_lawful.
